@@ -96,7 +96,13 @@ let dispatch = function
      | None -> put_int 0; put_int 0)
   | "trip" ->    (* helper row, id -> S (from the name alone), M (from what the row says it calls) *)
     let h = next_hrow () in let i = embed (next_json ()) in
-    put_trip (spec_trip !reg h.h_side h.h_name); put_trip (model_trip !reg h i)
+    (* what the requester does between the request and its reply: 0 send m id | 1 notify m | 2 frame received *)
+    let evs = read_list (fun () -> match next_int () with
+      | 0 -> let m = next_str () in let j = embed (next_json ()) in ESend (m, j)
+      | 1 -> ENotify (next_str ())
+      | _ -> (match embed (next_json ()) with PDict d -> ERecv d | _ -> ERecv [])) in
+    oracle := 0;
+    put_trip (spec_trip !reg h.h_side h.h_name); put_trip (model_trip_after structure !reg h i evs)
   | "classify" ->
     let i = next_bool () in let m = next_bool () in let e = next_bool () in
     put_int (int_of_kind (classify i m e));
